@@ -83,6 +83,30 @@ func (p *Prog) CallOf(ins ssa.Instruction) *Call {
 	return c
 }
 
+// Obj is the object a method is called on: the receiver, with selections of embedded struct fields removed (a method
+// promoted from an embedded struct is called on &x.embedded; the object is x). Embedded sync types are not peeled.
+func (c *Call) Obj() ssa.Value {
+	if c == nil || c.Recv == nil {
+		return nil
+	}
+	v := c.Recv
+	for i := 0; i < 4; i++ {
+		fa, ok := strip(v, false).(*ssa.FieldAddr)
+		if !ok {
+			return v
+		}
+		st := structOf(fa.X.Type())
+		if st == nil || fa.Field >= st.NumFields() || !st.Field(fa.Field).Embedded() {
+			return v
+		}
+		if nt := derefNamed(st.Field(fa.Field).Type()); nt == nil || nt.Obj().Pkg() == nil || nt.Obj().Pkg().Path() == "sync" || nt.Obj().Pkg().Path() == "sync/atomic" {
+			return v
+		}
+		v = fa.X
+	}
+	return v
+}
+
 // IsCall reports whether the instruction is a call whose resolved name is one of names.
 func (c *Call) Is(names ...string) bool {
 	if c == nil {
@@ -120,7 +144,7 @@ func strip(v ssa.Value, widths bool) ssa.Value {
 		switch x := v.(type) {
 		case *ssa.UnOp:
 			if x.Op == token.MUL {
-				if al, ok := x.X.(*ssa.Alloc); ok && structOf(al.Type().(*types.Pointer).Elem()) == nil {
+				if al, ok := x.X.(*ssa.Alloc); ok && !isStructType(al.Type().(*types.Pointer).Elem()) {
 					if s := singleStore(al); s != nil {
 						v = s
 						continue
@@ -268,6 +292,11 @@ func derefNamed(t types.Type) *types.Named {
 	}
 	nt, _ := t.(*types.Named)
 	return nt
+}
+
+func isStructType(t types.Type) bool {
+	_, ok := t.Underlying().(*types.Struct)
+	return ok
 }
 
 func structOf(t types.Type) *types.Struct {
